@@ -3,7 +3,7 @@ from core import report, paths
 from core.report import Rule
 from core.sm9 import Repo, U256
 from core.terms import strip, alts, walk, show
-from . import shared, conv2 as convert, profile
+from . import shared, conv2 as convert, profile, ladder
 from .shared import loc_of
 
 R1_64 = range(1, 65)
@@ -44,72 +44,6 @@ def rule_siblings(results):
         diff = [k for k in sorted(set(ra) | set(rb), key=str)
                 if (ra.get(k) and frozenset(ra[k].variants), bool(ra.get(k) and ra[k].panics)) != (rb.get(k) and frozenset(rb[k].variants), bool(rb.get(k) and rb[k].panics))]
         R.check(not diff, "C13:sibling:%s" % a, "%s and %s disagree for abstract inputs %s" % (a, b, diff[:5]), sample={"pair": [a, b], "points": len(ra)})
-    return R.finish()
-
-
-def rule_str(repo):
-    F = repo.F
-    R = Rule("R-STR", "decimal parser: radix literal 10, multiplier ints[10], and the first non-digit returns None immediately", floor=2)
-    for ap in repo.fp_types():
-        path = ap + "::from_str"
-        b = F.bodies.get(path)
-        if b is None:
-            R.fail_closed("C13:str:%s:anchor" % path, "%s not found" % path)
-            continue
-        tb = repo.tb(b)
-        R.instance()
-        td = [(bb, t) for bb, t in b.calls() if (t.get("fn") or {}).get("name") == "to_digit"]
-        if len(td) != 1:
-            R.fail_closed("C13:str:%s:shape" % path, "expected one to_digit call, found %d" % len(td), b.file_line())
-            continue
-        bb, t = td[0]
-        radix = tb.call_args(bb)[1]
-        rad_ok = radix[0] == "const" and int(radix[1].get("int", -1)) == 10
-        # the switch on the Option discriminant of to_digit
-        none_ok = False
-        for sb in sorted(b.reachable()):
-            term = b.blocks[sb]["term"]
-            if term["k"] != "switch":
-                continue
-            d = tb.operand(term["discr"], sb, len(b.blocks[sb]["stmts"]))
-            x = strip(d[1]) if d[0] == "discr" else None
-            none_idx = None
-            if x is not None and x[0] == "call" and x[1].name == "to_digit":
-                none_idx = 0                       # Option::None
-            elif x is not None and x[0] == "call" and x[1].name == "branch" and x[1].get("trait") == "core::ops::Try" and strip(x[2][0])[0] == "call" and strip(x[2][0])[1].name == "to_digit":
-                none_idx = 1                       # ControlFlow::Break of `to_digit(..)?`
-            if none_idx is not None:
-                tgt = term["otherwise"]
-                for val, tg in term["arms"]:
-                    if int(val) == none_idx:
-                        tgt = tg
-                res = paths.simulate(b, tb, paths.Evaluator({}), start=tgt)
-                v = paths.path_value(b, tb, res.blocks, 0)
-                loops_again = any(c[1].name == "next" for c in res.calls)
-                none_ok = res.end == "return" and not loops_again and all((x[0] == "agg" and x[2] == "None") or (x[0] == "call" and x[1].name == "from_residual" and "Option" in x[1].i) for x in alts(v))
-        # multiplier: ints[10]
-        mul_ok = False
-        for s in walk(tb.return_value()):
-            pass
-        for bb2, t2 in b.calls():
-            fn = t2.get("fn") or {}
-            if fn.get("name") == "index" and "Vec" in (fn.get("res_inst") or fn.get("inst") or ""):
-                a = tb.call_args(bb2)
-                if a[1][0] == "const" and int(a[1][1].get("int", -1)) == 10:
-                    mul_ok = True
-        R.check(rad_ok and none_ok and mul_ok, "C13:str:%s" % path,
-                "%s: radix literal 10=%s, non-digit returns None at once=%s, multiplier ints[10]=%s" % (path, rad_ok, none_ok, mul_ok), b.file_line(), path,
-                sample={"fn": path, "radix": 10 if rad_ok else None, "none_arm_returns_immediately": none_ok, "multiplier_index": 10 if mul_ok else None})
-    # public FromStr maps None to Err
-    for w, inner in (("<crate::Fr as core::str::FromStr>::from_str", "crate::fields::fp::Fr::from_str"), ("<crate::Fq as core::str::FromStr>::from_str", "crate::fields::fp::Fq::from_str")):
-        wb = F.bodies.get(w)
-        R.instance()
-        if wb is None:
-            R.fail_closed("C13:str:%s:anchor" % w, "%s not found" % w)
-            continue
-        rv = repo.tb(wb).return_value()
-        ok = rv[0] == "call" and rv[1].name == "ok_or" and any(s[0] == "call" and s[1].d == inner for s in walk(rv))
-        R.check(ok, "C13:str:%s" % w, "%s is not inner::from_str(s).map(..).ok_or(err): %s" % (w, show(rv, maxdepth=3)[:160]), wb.file_line(), w, sample={"wrapper": w})
     return R.finish()
 
 
@@ -242,7 +176,7 @@ def run(ctx):
             rules.append(rule_siblings(results))
             rules.append(convert.rule_value_shape("C13", repo, ls, VALUE_ENTRIES))
             rules.append(convert.rule_hash("C13", repo, ls, ["crate::fields::fp::Fr::from_hash", "crate::Fr::from_hash"]))
-            rules.append(rule_str(repo))
+            rules.append(ladder.rule_decimal("C13", repo))
             rules.append(rule_setbit(repo))
             rules.append(convert.rule_scalar_encoders("C13", repo, ls))
             rules.append(convert.rule_is_even("C13", repo, ls))
